@@ -30,6 +30,8 @@
        sign_and_forward mac key_value key_guid req : fwd      handle_request_with_signature:
                               Forwarded out | BadGateway (authorization value not a HeaderValue)
        sign_and_forward_pair mac (Some (guid, value)) req      the same, key read as one pair (a01dbe0)
+       hyper_wire req, handle_signed mac key req               what hyper's client puts on the wire for a forwarded
+                              request (no transfer-encoding header for an empty body); the repaired handler
        relay mac key_value key_guid req                       exempt -> Forwarded req unchanged,
                               otherwise sign_and_forward
        build_request mac now m host u hs body key_guid key    the agent's own calls
@@ -368,6 +370,11 @@ Definition host_header : bytes := [104; 111; 115; 116].
 Definition content_length_header : bytes :=
   [99; 111; 110; 116; 101; 110; 116; 45; 108; 101; 110; 103; 116; 104].
 
+(* "transfer-encoding" *)
+Definition transfer_encoding_header : bytes :=
+  [116; 114; 97; 110; 115; 102; 101; 114; 45; 101; 110; 99; 111; 100; 105; 110; 103].
+Definition drop_header (n : bytes) (hs : headers) : headers := filter (fun h => negb (beq n (fst h))) hs.
+
 Section Sign.
 Context (mac : bytes -> bytes -> bytes).
 
@@ -404,6 +411,20 @@ Definition sign_and_forward_pair (key : option (bytes * bytes)) (req : request) 
   | Some (guid, value) => sign_and_forward (Some value) (Some guid) req
   | None => Forwarded req
   end.
+
+(* hyper's HTTP/1 client writes a request whose body is empty WITHOUT a transfer-encoding header (there is nothing to
+   frame); every other header, content-length and trailer included, goes out as it is (observed end to end).  Since
+   patches/fix-C04-empty-chunked-body the handler does the same to the head BEFORE it signs, once the body has been
+   collected (`if whole_body.is_empty() { head.headers.remove(TRANSFER_ENCODING) }`), so one function models both. *)
+Definition hyper_wire (r : request) : request :=
+  match r_body r with
+  | [] => with_headers r (drop_header transfer_encoding_header (r_headers r))
+  | _ => r
+  end.
+
+(* handle_request_with_signature as repaired: drop the framing header of an empty body, then sign and forward *)
+Definition handle_signed (key : option (bytes * bytes)) (req : request) : fwd :=
+  sign_and_forward_pair key (hyper_wire req).
 
 (* handle_new_http_request's last step: exempt requests go out as they are *)
 Definition relay (key_value key_guid : option bytes) (req : request) : fwd :=
